@@ -61,28 +61,23 @@ Proof.
     rewrite <- app_assoc. cbn [app]. now rewrite Nat.add_succ_r.
 Qed.
 
-Lemma set_restat_scoped pre e post fr :
-  e_scope e <> NoScope ->
+Lemma set_restat_at pre e post fr :
   set_restat (mkGraph (pre ++ e :: post) fr) (length pre) =
-  mkGraph (pre ++ mkEdge (e_outs e) (e_nimp_out e) (e_ins e) (e_nimp e) (e_noo e) (e_dyndep e)
-                         (Scope (Some true)) (e_rule_restat e) :: post) fr.
-Proof.
-  intros Hs. unfold set_restat. cbn [g_edges g_file_restat]. rewrite nth_error_app_mid.
-  destruct (e_scope e) eqn:He; [congruence|]. now rewrite update_nth_app.
-Qed.
+  mkGraph (pre ++ scope_restat e :: post) fr.
+Proof. unfold set_restat. cbn [g_edges g_file_restat]. now rewrite update_nth_app. Qed.
 
 Lemma update_edge_ok pre e post fr st g2 :
-  (dd_restat st = true -> e_scope e <> NoScope) ->
   update_edge (mkGraph (pre ++ e :: post) fr) (length pre) st = Ok g2 ->
   g2 = mkGraph (pre ++ apply_stmt e st :: post) fr.
 Proof.
-  intros Hs. unfold update_edge.
+  unfold update_edge.
   destruct (dd_restat st) eqn:Hr.
-  - rewrite (set_restat_scoped pre e post fr (Hs eq_refl)).
+  - rewrite (set_restat_at pre e post fr).
     destruct (add_outs _ _ _) as [g1|] eqn:Ha; [|discriminate].
     apply add_outs_ok in Ha. subst g1. intros [= <-].
     cbn [g_edges g_file_restat]. rewrite update_nth_app.
-    unfold splice_ins, apply_stmt. cbn [e_outs e_nimp_out e_ins e_nimp e_noo e_dyndep e_scope e_rule_restat].
+    unfold splice_ins, apply_stmt, scope_restat.
+    cbn [e_outs e_nimp_out e_ins e_nimp e_noo e_dyndep e_scope e_rule_restat].
     now rewrite Hr.
   - destruct (add_outs _ _ _) as [g1|] eqn:Ha; [|discriminate].
     apply add_outs_ok in Ha. subst g1. intros [= <-].
@@ -97,13 +92,6 @@ Qed.
 Definition listed_once (g : graph) (f : node) : Prop :=
   forall i e, nth_error (g_edges g) i = Some e -> opt_node_eqb (e_dyndep e) f = true ->
               count_bytes f (e_ins e) = 1%nat.
-(* an edge whose statement sets restat has a binding scope of its own (true whenever the dyndep
-   binding is written in the build statement; FALSE when it is inherited from the rule and the
-   statement has no indented binding) *)
-Definition restat_scoped (g : graph) (stmts : list dd_stmt) : Prop :=
-  forall i e st, nth_error (g_edges g) i = Some e -> find_stmt g stmts i = Some st ->
-                 dd_restat st = true -> e_scope e <> NoScope.
-
 Lemma load_edges_skip g0 f stmts i n oe g :
   bound_to g0 f i = false ->
   load_edges g0 f stmts (repeat i n ++ oe) g = load_edges g0 f stmts oe g.
@@ -113,7 +101,7 @@ Proof.
 Qed.
 
 Lemma load_edges_inline g0 f stmts :
-  listed_once g0 f -> restat_scoped g0 stmts ->
+  listed_once g0 f ->
   (forall j st, find_stmt g0 stmts j = Some st -> bound_to g0 f j = true) ->
   forall es pre0 g',
     g_edges g0 = pre0 ++ es ->
@@ -121,7 +109,7 @@ Lemma load_edges_inline g0 f stmts :
                (mkGraph (inline_edges g0 stmts 0 pre0 ++ es) (g_file_restat g0)) = Ok g' ->
     g' = mkGraph (inline_edges g0 stmts 0 (pre0 ++ es)) (g_file_restat g0).
 Proof.
-  intros Honce Hsc Hused.
+  intros Honce Hused.
   induction es as [|e es IH]; intros pre0 g' Hg.
   - cbn [out_edges_from load_edges]. intros [= <-]. now rewrite !app_nil_r.
   - cbn [out_edges_from].
@@ -143,7 +131,7 @@ Proof.
       destruct (find_stmt g0 stmts (length pre0)) as [st|] eqn:Hf; [|discriminate].
       destruct (update_edge _ _ st) as [g1|] eqn:Hu; [|discriminate].
       rewrite <- (inline_edges_length g0 stmts 0 pre0) in Hu.
-      apply update_edge_ok in Hu; [|intro Hr; exact (Hsc _ _ _ Hnth Hf Hr)].
+      apply update_edge_ok in Hu.
       apply Hstep. subst g1. rewrite inline_edges_app. cbn [inline_edges].
       rewrite Nat.add_0_l, Hf. rewrite <- app_assoc. reflexivity.
     + rewrite load_edges_skip by exact Hb.
@@ -172,10 +160,10 @@ Qed.
     count, inputs with implicit / order-only counts, dyndep binding, the restat sources; producers
     and out-edges are functions of these), so the conclusion is plain equality. *)
 Theorem C11_load_is_inline_proof : forall g f stmts g',
-  listed_once g f -> restat_scoped g stmts ->
+  listed_once g f ->
   load_dyndep g f stmts = Ok g' -> g' = inline_dyndep g stmts.
 Proof.
-  intros g f stmts g' Honce Hsc. unfold load_dyndep.
+  intros g f stmts g' Honce. unfold load_dyndep.
   destruct (check_stmts g [] stmts); [discriminate|].
   destruct (load_edges g f stmts (out_edges g f) g) as [g1|] eqn:Hl; [|discriminate].
   destruct (forallb _ stmts) eqn:Hu; [|discriminate]. intros [= <-].
@@ -183,7 +171,7 @@ Proof.
   assert (Hused : forall j st, find_stmt g stmts j = Some st -> bound_to g f j = true).
   { intros j st Hf. apply find_stmt_some in Hf. destruct Hf as [Hin Hk].
     rewrite forallb_forall in Hu. eapply stmt_used_bound; [apply Hu; exact Hin|exact Hk]. }
-  pose proof (load_edges_inline g f stmts Honce Hsc Hused (g_edges g) [] g1 eq_refl) as H.
+  pose proof (load_edges_inline g f stmts Honce Hused (g_edges g) [] g1 eq_refl) as H.
   cbn [length inline_edges app] in H. apply H.
   unfold out_edges in Hl. destruct g as [es fr]. exact Hl.
 Qed.
@@ -353,10 +341,7 @@ Qed.
 
 Lemma set_restat_prod g i o :
   has_prod (g_edges g) o = true -> has_prod (g_edges (set_restat g i)) o = true.
-Proof.
-  unfold set_restat. destruct (nth_error (g_edges g) i) as [e|]; [|auto].
-  destruct (e_scope e); cbn [g_edges]; [auto|]. apply has_prod_update. intros e0 H. exact H.
-Qed.
+Proof. unfold set_restat. cbn [g_edges]. apply has_prod_update. intros e0 H. exact H. Qed.
 
 Lemma update_edge_fresh g i st g2 :
   update_edge g i st = Ok g2 ->
@@ -456,10 +441,7 @@ Lemma update_nth_length {A} (f : A -> A) : forall l i, length (update_nth i f l)
 Proof. induction l as [|x l IH]; intros i; destruct i; cbn [update_nth length]; auto. Qed.
 
 Lemma set_restat_length g i : length (g_edges (set_restat g i)) = length (g_edges g).
-Proof.
-  unfold set_restat. destruct (nth_error (g_edges g) i) as [e|]; [|reflexivity].
-  destruct (e_scope e); cbn [g_edges]; [reflexivity|apply update_nth_length].
-Qed.
+Proof. unfold set_restat. cbn [g_edges]. apply update_nth_length. Qed.
 
 Lemma update_edge_installs g i st g2 o :
   update_edge g i st = Ok g2 -> (i < length (g_edges g))%nat -> In o (dd_imp_outs st) ->
@@ -562,7 +544,7 @@ Proof.
   congruence.
 Qed.
 
-(* ---------- the metamorphic statement WITHOUT its two hypotheses is false of the real code ---------- *)
+(* ---------- the metamorphic statement WITHOUT its hypothesis is false of the real code ---------- *)
 Definition C11_load_is_inline_full : Prop :=
   forall g f stmts g', load_dyndep g f stmts = Ok g' -> g' = inline_dyndep g stmts.
 
@@ -573,16 +555,17 @@ Definition w_dd : node := [100; 100].
 Definition w_other : node := [111; 116; 104; 101; 114].
 Definition w_x : node := [120].
 
-(* witness 1 (restat leak): "rule r {dyndep = dd}; build out: r in | dd; build other: t" -- the bound
-   edge has no scope of its own, "restat = 1" of the dyndep file lands in the file-level scope and
-   the unrelated edge "other" becomes a restat edge. *)
+(* witness 1 (restat leak of the OLD UpdateEdge, [load_dyndep_old]): "rule r {dyndep = dd};
+   build out: r in | dd; build other: t" -- the bound edge has no scope of its own, "restat = 1" of
+   the dyndep file landed in the file-level scope and the unrelated edge "other" became a restat
+   edge.  Fixed in /repo ("fix: bind dyndep-supplied restat in a scope private to the edge"). *)
 Definition w_leak_graph : graph :=
   mkGraph [mkEdge [w_out] 0 [w_in; w_dd] 1 0 (Some w_dd) NoScope None;
            mkEdge [w_other] 0 [] 0 0 None NoScope None] None.
 Definition w_leak_stmts : list dd_stmt := [mkStmt w_out [] [] true].
 
-Lemma C11_load_is_inline_refuted_restat_leak :
-  exists g f stmts g', load_dyndep g f stmts = Ok g' /\ g' <> inline_dyndep g stmts /\
+Lemma C11_old_load_refuted_restat_leak :
+  exists g f stmts g', load_dyndep_old g f stmts = Ok g' /\ g' <> inline_dyndep g stmts /\
     (* observable: the restat flag of the edge the file does not mention *)
     exists e e', nth_error (g_edges g') 1 = Some e' /\ nth_error (g_edges (inline_dyndep g stmts)) 1 = Some e /\
                  edge_restat g' e' = true /\ edge_restat (inline_dyndep g stmts) e = false.
@@ -591,6 +574,13 @@ Proof.
   eexists. split; [vm_compute; reflexivity|]. split; [vm_compute; discriminate|].
   do 2 eexists. repeat split; vm_compute; reflexivity.
 Qed.
+
+(* the same scenario with the fixed code: the load is the inlined graph, "other" keeps restat = false *)
+Lemma C11_restat_leak_fixed_on_witness :
+  load_dyndep w_leak_graph w_dd w_leak_stmts = Ok (inline_dyndep w_leak_graph w_leak_stmts) /\
+  exists e, nth_error (g_edges (inline_dyndep w_leak_graph w_leak_stmts)) 1 = Some e /\
+            edge_restat (inline_dyndep w_leak_graph w_leak_stmts) e = false.
+Proof. split; [vm_compute; reflexivity|]. eexists. split; vm_compute; reflexivity. Qed.
 
 (* witness 2: the dyndep file listed twice among the inputs "build out: r dd dd": out_edges holds the
    edge twice, UpdateEdge runs twice, the implicit input is spliced in twice *)
@@ -615,6 +605,41 @@ Theorem C11_load_is_inline_full_refuted : ~ C11_load_is_inline_full.
 Proof.
   intros H. destruct C11_load_is_inline_refuted_listed_twice as [g [f [stmts [g' [Hl Hne]]]]].
   exact (Hne (H g f stmts g' Hl)).
+Qed.
+
+(** the fix, for all graphs and files: a load never touches the file-level scope (restat of the
+    edges the file does not mention is what it was) *)
+Lemma add_outs_file_restat : forall outs g i g2,
+  add_outs g i outs = Ok g2 -> g_file_restat g2 = g_file_restat g.
+Proof.
+  induction outs as [|o outs IH]; intros g i g2; cbn [add_outs]; [now intros [= <-]|].
+  destruct (producer g o); [discriminate|]. intros H. apply IH in H. exact H.
+Qed.
+
+Lemma update_edge_file_restat g i st g2 :
+  update_edge g i st = Ok g2 -> g_file_restat g2 = g_file_restat g.
+Proof.
+  unfold update_edge. destruct (add_outs _ i _) as [g3|] eqn:Ha; [|discriminate]. intros [= <-].
+  cbn [g_file_restat]. rewrite (add_outs_file_restat _ _ _ _ Ha). now destruct (dd_restat st).
+Qed.
+
+Lemma load_edges_file_restat g0 f stmts : forall oe g g',
+  load_edges g0 f stmts oe g = Ok g' -> g_file_restat g' = g_file_restat g.
+Proof.
+  induction oe as [|j oe IH]; intros g g'; cbn [load_edges]; [now intros [= <-]|].
+  destruct (negb (bound_to g0 f j)); [apply IH|].
+  destruct (find_stmt g0 stmts j) as [sj|]; [|discriminate].
+  destruct (update_edge g j sj) as [g1|] eqn:Hu; [|discriminate].
+  intros H. apply IH in H. rewrite H. eapply update_edge_file_restat; eauto.
+Qed.
+
+Theorem C11_load_keeps_file_scope_proof : forall g f stmts g',
+  load_dyndep g f stmts = Ok g' -> g_file_restat g' = g_file_restat g.
+Proof.
+  intros g f stmts g'. unfold load_dyndep. destruct (check_stmts g [] stmts); [discriminate|].
+  destruct (load_edges g f stmts (out_edges g f) g) as [g1|] eqn:Hl; [|discriminate].
+  destruct (forallb _ stmts); [|discriminate]. intros [= <-].
+  eapply load_edges_file_restat; eauto.
 Qed.
 
 (* ========================================================================================== *)
@@ -2444,26 +2469,17 @@ Proof.
   rewrite forallb_forall in Hu. eapply stmt_used_bound; [apply Hu; exact Hin|exact Hk].
 Qed.
 
-(* every edge bound to the file has a binding scope of its own (the usual way of writing
-   "dyndep = file" in the build statement guarantees it) *)
-Definition bound_scoped (g : graph) (f : node) : Prop :=
-  forall i e, nth_error (g_edges g) i = Some e -> opt_node_eqb (e_dyndep e) f = true ->
-              e_scope e <> NoScope.
-
 (** C11 at file level: when the real loader accepts a dyndep file, the graph it leaves is the
     graph of the manifest with the file's information written into the build statements *)
 Theorem C11_file_load_is_inline_proof : forall g f c g',
-  listed_once g f -> bound_scoped g f ->
+  listed_once g f ->
   dyndep_load g f (Some c) = Ok g' ->
   exists stmts, parse_dyndep c = Ok stmts /\ g' = inline_dyndep g stmts.
 Proof.
-  intros g f c g' Honce Hsc. unfold dyndep_load.
+  intros g f c g' Honce. unfold dyndep_load.
   destruct (parse_gen (graph_chk g) c) as [stmts|e] eqn:Hp; [|discriminate]. intros Hl.
   exists stmts. split; [eapply parse_gen_ok_syntax_proof; eauto|].
-  apply (C11_load_is_inline_proof g f stmts g' Honce); [|exact Hl].
-  intros i e st Hn Hf _. apply (Hsc i e Hn).
-  pose proof (load_ok_found_bound g f stmts g' Hl i st Hf) as Hb.
-  unfold bound_to in Hb. now rewrite Hn in Hb.
+  exact (C11_load_is_inline_proof g f stmts g' Honce Hl).
 Qed.
 
 Lemma check_stmts_passes g : forall stmts seen,
